@@ -16,7 +16,7 @@ Decided clauses (resolved MIR of the group-data function(s) = crate functions co
       and nothing else constructs the two errors.
 Not decided: which error naga's validator reports first when validation is enabled (property: "may pre-empt")."""
 from engine_mir import Mir, op_local, op_place
-from mirutil import cname, method, guards, chain_of, panic_sites, canon, truthy_only, falsy_only
+from mirutil import feasible_reach, cname, method, guards, chain_of, panic_sites, canon, truthy_only, falsy_only
 
 ERR = 'CreateModuleError'
 SCAN_OK = ('deref', 'iter', 'into_iter', 'as_slice', 'as_ref', 'borrow')
@@ -378,14 +378,18 @@ def run(rep):
         st = T.blocks[sw]['term']
         succ = [tgt for v, tgt in st['targets'] if v == 0][0]
         errt = [tgt for v, tgt in st['targets'] if v == 1][0]
-        er = T.reachable_from([errt], avoid={sw}) - {b for b in range(T.n) if succ in T.dominators()[b]}
-        other = [cname(t) for b, t in T.calls() if b in er and not cname(t).startswith('<std::result::Result<T, F> as std::ops::FromResidual')]
+        # feasibility: the group-data call may sit in an inlined front-end helper (`ModuleAnalysis::new(&module)?`): a path through the helper's Err
+        # return cannot leave the caller's `?` on the Ok edge
+        er = feasible_reach(T, [errt], avoid={sw}) - {b for b in range(T.n) if succ in T.dominators()[b]}
+        other = [cname(t) for b, t in T.calls() if b in er and not cname(t).startswith('<std::result::Result<T, F> as std::ops::FromResidual') and
+                 not cname(t).endswith('as std::ops::Try>::branch')]
         aggs = [st2['rv']['agg'] for b in er for st2 in T.blocks[b]['stmts'] if st2['rv']['rk'] == 'aggregate' and ERR in st2['rv']['agg']]
         rep.check(not other and not aggs, 'C11.R5.error-returned', f'group-data-error:{tn}', T.where(errt),
                   f'the error of the group-data function is not returned unchanged ({other[:3]} {aggs[:3]})', ok_detail='Err returned through `?` unchanged')
         emitters = [(b, t) for b, t in T.calls() if cname(t) in mir.bodies and mir.bodies[cname(t)].kind != 'Closure' and cname(t) not in G
                     and 'TokenStream' in mir.bodies[cname(t)].locals[0]]
-        late = [cname(t) for b, t in emitters if succ not in T.dominators()[b]]
+        unaccepted = feasible_reach(T, [0], avoid={succ})       # what can run without the success edge having been taken
+        late = [cname(t) for b, t in emitters if b in unaccepted]
         rep.check(not late, 'C11.R5.before-emission', f'before-emission:{tn}', T.where(gb),
                   f'emission functions {late[:4]} run before the group numbering was accepted', ok_detail=f'{len(emitters)} emission calls all after the success edge')
     # who may construct
